@@ -1,4 +1,5 @@
 """C15 - connection lifecycle hooks fire once, in order, on every exit path (WebSocket server)."""
+import re
 from analysis.flow import must_cross, return_points, term_pt, path_counts, in_cycle, yields, definitely_init, init_at_point, trace_op
 from analysis.guards import facts_at, _variants_for_discr, field_writes, struct_constructions, _mentions_field
 from analysis.mir import callee_matches, op_place, rv_operands
@@ -249,6 +250,36 @@ def run(facts, R):
     caps = [x for v in regs.values() for x in v[1]]
     ok = ok and all("arg2" in c for c in caps) and len(caps) == 2
     R.check(ok, "registry-pairing", wp.path, "insert on connect, remove on disconnect, same registry", "with_peer_registry registers %s" % regs, wp.span, str({k: v[0] for k, v in regs.items()}))
+
+    # a server's peer ids and the registry its hooks feed come from one counter: wherever one server's hook lists are handed to
+    # another server value, the id counter travels with them (two counters minting into one registry collide on PeerId)
+    SRV = WS + "WebSocketServer"
+    HOOKF = ("on_connect", "on_connect_ctx", "on_disconnect")
+    cw = [w for w in field_writes(facts, SRV, "peer_id_counter", include_borrows=False) if w["kind"] == "store"]
+    okc = any(w["body"] is wp and "PeerRegistry::id_counter(arg2" in render_n(Sym(wp).rvalue(w["rv"])) for w in cw)
+    R.check(okc, "registry-pairing", wp.path, "the registry's id counter is adopted with its hooks", "with_peer_registry does not take the registry's id counter (stores: %s)" % [
+        render_n(Sym(w["body"]).rvalue(w["rv"]))[:60] for w in cw if w["body"] is wp], wp.span, "peer_id_counter = registry.id_counter()")
+    n_hand = 0
+    for fld in HOOKF:
+        for w in field_writes(facts, SRV, fld, include_borrows=True):
+            b = w["body"]
+            if not b.path.startswith(WS) or "rv" not in w:
+                continue
+            bs = Sym(b)
+            src = render_n(bs.rvalue(w["rv"])) if w["kind"] == "store" else ""
+            if w["kind"] != "store":
+                # a push into the list: the pushed element read from another server's list
+                src = " ".join(render_n(bs.op(a)) for i_, t_ in b.calls() if t_["callee"]["name"] in ("push", "extend", "extend_from_slice", "append", "clone_from") for a in t_["args"][1:])
+            m = re.search(r"(arg\d+|_\d+)[\w\.\*\(\)]*\.(on_connect_ctx|on_connect|on_disconnect)\b", src)
+            if not m:
+                continue
+            n_hand += 1
+            base = m.group(1)
+            got = [render_n(bs.rvalue(c["rv"])) for c in cw if c["body"] is b]
+            R.check(any(re.search(re.escape(base) + r"[\w\.\*\(\)]*\.peer_id_counter\b", g) for g in got), "registry-pairing", b.path, "hook lists travel with their id counter",
+                    "%s hands %s.%s to another server without that server's peer_id_counter (a registry hook among them would see ids minted by two counters; counter stores here: %s)" % (
+                        b.path.rsplit("::", 1)[-1], base, m.group(2), [g[:50] for g in got] or "none"), w.get("span"), "hooks of %s with its counter" % base)
+    R.note("registry-pairing: hook-list hand-overs between servers: %d" % n_hand)
 
     # ---------------- post-handshake-only -------------------------------------------------------------------------------
     callers = facts.calls_to(WS + "handle_connection_with_config")
